@@ -34,3 +34,11 @@ mut("pass_accept_stop_try_complete_before_cas", "violation", "pass", PH,
     "    if (pass_.state_.compare_exchange_strong(\n            expected, 0, std::memory_order_acq_rel)) {\n      locked_complete_with(defer_set_done());\n      if (try_complete(this)) {\n        forwardingOp_.start(*this);\n      }\n    }\n",
     "    if (try_complete(this) &&\n        pass_.state_.compare_exchange_strong(\n            expected, 0, std::memory_order_acq_rel)) {\n      locked_complete_with(defer_set_done());\n      forwardingOp_.start(*this);\n    }\n",
     "accept_op::stop() evaluates try_complete before the un-claim CAS: a stop landing between a caller's claim and the acceptor's unlocked_complete_ strands the async_accept")
+mut("auto_notify_outside_lock", "violation", "auto", AC,
+    "void async_auto_reset_event::set() noexcept {\n  std::lock_guard lock{mutex_};\n\n  if (state_ != state::DONE) {\n    state_ = state::SET;\n    event_.set();\n  }\n}\n",
+    "void async_auto_reset_event::set() noexcept {\n  {\n    std::lock_guard lock{mutex_};\n\n    if (state_ == state::DONE) {\n      return;\n    }\n\n    state_ = state::SET;\n  }\n\n  event_.set();\n}\n",
+    "set() updates state_ under the mutex but calls the inner event_.set() after unlocking: a consumer's try_reset() can run in the gap, the late event_.set() leaves the inner event signalled while state_ is UNSET and the following next() completes with done (seeded defect C16-2)")
+mut("auto_try_reset_outside_lock", "violation", "auto", AC,
+    "bool async_auto_reset_event::try_reset() noexcept {\n  std::lock_guard lock{mutex_};\n",
+    "bool async_auto_reset_event::try_reset() noexcept {\n",
+    "try_reset() no longer takes the mutex: it can run inside a producer's set() between 'state_ = SET' and event_.set()")
